@@ -470,17 +470,26 @@ def axisCfg : Gen.Attr.Row :=
 def angleCfg : Gen.Attr.Row :=
   ⟨"input_checks", "check_format_input_angle", "check_format_input_vector", [1], -1, 0, false, false, false, false⟩
 
+/-- the part of `check_format_input_anchor` for an input that is not the number 0: the vector check, then
+`inp is not None and inp.size == 0` (an empty (0,3) array is refused) -/
+def anchorVec (v : PyVal) : Except Err Stored :=
+  match checkVector anchorCfg v with
+  | .error e => .error e
+  | .ok (.array a) => if a.size == 0 then .error .badUserInput else .ok (.array a)
+  | .ok s => .ok s
+
 /-- `check_format_input_anchor(inp)` -/
 def checkAnchor (v : PyVal) : Except Err Stored :=
   if isNumber v && isZeroNumber v then .ok (.array ⟨[3], [.fin 0, .fin 0, .fin 0]⟩)
-  else checkVector anchorCfg v
+  else anchorVec v
 
-/-- `check_format_input_angle(inp)`: `float(inp)` of a number is not guarded (TypeError for a complex number) -/
+/-- `check_format_input_angle(inp)`: `try: return float(inp) / except (TypeError, OverflowError): raise MagpylibBadUserInput`
+(a complex number; an integer beyond the float range is outside the grammar) -/
 def checkAngle (v : PyVal) : Except Err Stored :=
   if isNumber v then
     match pyFloat v with
     | .ok x => .ok (.scalar x)
-    | .error e => .error e
+    | .error _ => .error .badUserInput
   else checkVector angleCfg v
 
 /-- the part of `check_format_input_axis` for an input that is not a string: the vector check, then `np.all(inp == 0)` -/
